@@ -34,7 +34,7 @@ Import-free apart from the engine model so that `wfdriver` links.
 namespace Engine
 
 /-- handler status in the store -/
-inductive Status | running | completed | failed | cancelled
+inductive HStatus | running | completed | failed | cancelled
 deriving DecidableEq, Repr
 
 /-- why an operation on the handler failed (the code raises / marks the handler failed) -/
@@ -55,7 +55,7 @@ structure Srv where
   live : Option Runner := none
   /-- ticks persisted by earlier incarnations of the run (the live one's are `live.log`) -/
   store : List Tick := []
-  status : Status := .running
+  status : HStatus := .running
   idleSince : Option Int := none
   now : Int := 0
   err : Option SrvErr := none
@@ -65,34 +65,34 @@ structure Srv where
 /-- what `WorkflowTickAdapter.dump_python(tick, mode="json")` keeps of a step result: `AddWaiter`
 always writes `requirements = {}`, and its `has_requirements` marker is stripped again on
 validation, so a persisted waiter registration comes back **without requirements** -/
-def Res.persist : Res → Res
+def Res.stored : Res → Res
   | .addWaiter wid we _ tmo ty => .addWaiter wid we none tmo ty
   | r => r
 
-def Tick.persist : Tick → Tick
-  | .stepResult s w e rs => .stepResult s w e (rs.map Res.persist)
+def Tick.stored : Tick → Tick
+  | .stepResult s w e rs => .stepResult s w e (rs.map Res.stored)
   | t => t
 
 /-- everything `append_tick` has written for this run -/
 def Srv.persisted (s : Srv) : List Tick :=
-  s.store ++ (match s.live with | some r => r.log.map (fun p => p.1.persist) | none => [])
+  s.store ++ (match s.live with | some r => r.log.map (fun p => p.1.stored) | none => [])
 
-def lastExit (cmds : List Cmd) : Option Cmd := (cmds.filter Cmd.isExit).getLast?
+def lastExitOf (cmds : List Cmd) : Option Cmd := (cmds.filter Cmd.isExit).getLast?
 
 /-- `replay_ticks_stream`: rewind, then reduce every tick at the clock of the replay;
 `none` when the reducer raises -/
-def replayFrom (cfg : Cfg) (pol : Policy) (now : Int) : List Tick → State × Option Cmd → Option (State × Option Cmd)
+def tmReplayFrom (cfg : Cfg) (pol : Policy) (now : Int) : List Tick → State × Option Cmd → Option (State × Option Cmd)
   | [], acc => some acc
   | t :: ts, acc =>
     let r := reduce cfg pol t acc.1 now
     if r.2.contains .crash then none
-    else replayFrom cfg pol now ts (r.1, match lastExit r.2 with | some c => some c | none => acc.2)
+    else tmReplayFrom cfg pol now ts (r.1, match lastExitOf r.2 with | some c => some c | none => acc.2)
 
-def replayAt (cfg : Cfg) (pol : Policy) (ticks : List Tick) (now : Int) : Option (State × Option Cmd) :=
-  replayFrom cfg pol now ticks ((rewind cfg initState now).1, none)
+def tmReplayAt (cfg : Cfg) (pol : Policy) (ticks : List Tick) (now : Int) : Option (State × Option Cmd) :=
+  tmReplayFrom cfg pol now ticks ((rewind cfg initState now).1, none)
 
 /-- `handler_status_from_exit_command` -/
-def finalStatus : Cmd → Option Status
+def finalStatus : Cmd → Option HStatus
   | .completeRun .idleReleased => none
   | .completeRun _ => some .completed
   | .failWorkflow _ _ => some .failed
@@ -102,7 +102,7 @@ def finalStatus : Cmd → Option Status
 
 /-- status written when the live control loop publishes its terminal event
 (`_ServerInternalRunAdapter.write_to_event_stream`); a reducer exception writes nothing -/
-def outcomeStatus : Outcome → Status
+def outcomeStatus : Outcome → HStatus
   | .completed .idleReleased => .running
   | .completed _ => .completed
   | .failed _ _ => .failed
@@ -119,7 +119,7 @@ def reload (c : SrvCfg) (pol : Policy) (ticks : List Tick) (now : Int) : Reloade
   match ticks with
   | [] => .error .noTicks
   | _ =>
-    match replayAt c.cfg pol ticks now with
+    match tmReplayAt c.cfg pol ticks now with
     | none => .error .replayRaised
     | some (st, ex) =>
       let st' := roundtrip c.cfg st
